@@ -364,6 +364,47 @@ def _r3_5(prog: Program, res: Result) -> None:
                        (f"the splices are applied in ascending order ({short(loop.iter, 70)}): after the first one that changes the length, "
                         "all later positions are stale and the text is cut in the wrong places" if not desc else
                         f"descending, but by {why_key}, which is not the position the splice uses"))
+    # second shape: the text is threaded through position-based EDITORS of the repository, one element per iteration
+    # (processing.alter_code): `for .. in sorted(actions, reverse=True): T = editor(T, ..)`
+    EDITORS = {"_insert_nodes", "remove_nodes", "_replace_nodes"}
+    for fn in prog.funcs.values():
+        for loop in walk_own(fn.node):
+            if not isinstance(loop, ast.For):
+                continue
+            threads = []
+            for a in ast.walk(loop):
+                if isinstance(a, ast.Assign) and len(a.targets) == 1 and isinstance(a.targets[0], ast.Name) and isinstance(a.value, ast.Call) and a.value.args \
+                        and isinstance(a.value.args[0], ast.Name) and a.value.args[0].id == a.targets[0].id:
+                    r = prog.resolve_call(a.value.func, fn.mod, fn)
+                    if r and r[0] == "fn" and r[1].name in EDITORS:
+                        threads.append(a)
+            if len(threads) < 2:
+                continue
+            n += 1
+            it = loop.iter
+            desc = None
+            if isinstance(it, ast.Call) and isinstance(it.func, ast.Name) and it.func.id == "sorted" and it.args:
+                rev = next((k.value for k in it.keywords if k.arg == "reverse"), None)
+                desc = isinstance(rev, ast.Constant) and rev.value is True and not any(k.arg == "key" for k in it.keywords)
+                coll = it.args[0]
+                if isinstance(coll, ast.Name):
+                    defs = [v for (_s, v) in bindings(fn).get(coll.id, []) if v is not None]
+                    coll = defs[0] if len(defs) == 1 else coll
+                firsts = [g.elt.elts[0] for st_ in (coll.elts if isinstance(coll, (ast.List, ast.Tuple)) else []) if isinstance(st_, ast.Starred)
+                          for g in [st_.value] if isinstance(g, (ast.GeneratorExp, ast.ListComp)) and isinstance(g.elt, ast.Tuple) and g.elt.elts]
+                by_line = bool(firsts) and all(norm(f).endswith(".lineno") for f in firsts)
+            elif isinstance(it, ast.Call) and isinstance(it.func, ast.Name) and it.func.id == "reversed":
+                desc, by_line = None, False
+            else:
+                by_line = False
+            text = f"for {norm(loop.target)} in {short(loop.iter, 50)}: {len(threads)} position-based editors applied in turn"
+            if desc is None:
+                res.undecided("R3.5", fn.loc(loop), fn.fq, text, "order of application not recognised")
+            else:
+                ok = desc and by_line
+                res.decide(ok, "R3.5", fn.loc(loop), fn.fq, text,
+                           "actions are applied from the last line to the first (sorted descending, line number first)" if ok else
+                           "the actions are not applied from the last line upwards: the first insertion or removal shifts every line number the later actions rely on")
     res.floors["R3.5"] = 1
 
 
@@ -564,6 +605,8 @@ def _sub_summary(prog: Program, st: SafeText) -> str:
 from ..selftest import Variant  # noqa: E402
 
 VARIANTS = [
+    Variant("alter-code-actions-applied-top-down", "FIRE", "processing",
+            "    for *_, action, _, value in sorted(actions, reverse=True):", "    for *_, action, _, value in sorted(actions):", "R3.5"),
     Variant("insertions-applied-top-down", "FIRE", "processing",
             "    for node in sorted(additions, key=lambda n: n.lineno, reverse=True):", "    for node in sorted(additions, key=lambda n: n.lineno):", "R3.5"),
     Variant("import-spacing-applied-top-down", "FIRE", "fixes",
